@@ -143,7 +143,7 @@ PROPS = {
         rule='F_floor scenarios: layered production lines (sources incl. cycle 0 and finite budgets, handlers, processors with resources/callbacks/work orders, buffers with delay and capacity, batchers, decision gates, flow controllers, shared groups reached through several paths incl. nested and re-entrant use, sinks), scripted failures/shutdowns/restores/blocking/capacity changes/budget adjustments/one-shot offsets/mid-run rewiring, many single steps then runs, generated from VERIF_SEED (corpus/floor first); '
              'non-trivial = at least 8 parts received and 3 supplied; distinct by scenario text',
         explanation='Records only appended; each record carries the state of its moment; level record = level; resource record = pool. Device/data-log link invariant for every exception-free reachable state incl. inside runs: source produced counter = number of its supplied-part records, last level record of a buffer = its level (resource-manager and maintainer records proved to carry other labels). Exactly-one-record-per-occurrence for the other kinds, the sink counter (parts vs hand-overs) and last-resource-record = pool over runs are decided by the record monitor and the lock-step on the full data log. PARTIAL for those.',
-        assumptions=['well-posed layouts', 'event trace printing (trace=True) not modelled: the dispatch log is compared instead']),
+        assumptions=['well-posed layouts', 'the event trace (trace=True) is not part of the Coq model: it is checked on the implementation by the monitor (events taken off the queue while tracing vs. trace entries and exported file)']),
     'C20': dict(
         vfile='Props/C20.v', ties=['Tie/TieEnv.v', 'Tie/TieSys.v'],
         families=[('sys', 800, 20000, 'small', 'large')],
